@@ -144,7 +144,7 @@ def run(tier, v):
     quick = tier == "quick"
     # ---- 1. design
     cfg = "Codec_quick.cfg" if quick else "Codec_thorough.cfg"
-    r = vlib.tlc("Codec", cfg, timeout=3000, heap="24g", coverage=quick)
+    r = vlib.tlc("Codec", cfg, timeout=3000, heap="3g" if quick else "12g", coverage=quick)
     if not r["ok"]:
         raise vlib.Infra("Codec model violates %s on the design level:\n%s" % (r["violated"], r["out"][-3000:]))
     cov["states"], cov["transitions"] = r["distinct"], r["states"]
@@ -161,10 +161,10 @@ def run(tier, v):
     _lap("exhaustive TLC")
     h = vlib.build_harness(["c04"])
     # ---- 2. spec -> impl
-    g = vlib.tlc("CodecGen", "CodecGen_quick.cfg", timeout=1200, heap="8g")
+    g = vlib.tlc("CodecGen", "CodecGen_quick.cfg", timeout=1200, heap="1500m")
     cases = vlib.mbt_lines(g["out"])
     nbfs = len(cases)
-    g2 = vlib.tlc("CodecGen", "CodecGen_sim.cfg", workers=1, timeout=900, heap="4g",
+    g2 = vlib.tlc("CodecGen", "CodecGen_sim.cfg", workers=1, timeout=900, heap="2g",
                   simulate="num=%d" % (2500 if quick else 40000), depth=90, extra_args=["-seed", str(vlib.seed())])
     cases += vlib.mbt_lines(g2["out"])
     if nbfs < 1000 or len(cases) - nbfs < 100:
@@ -183,7 +183,7 @@ def run(tier, v):
     out = os.path.join(vlib.scratch(), "c04tv")
     s = vlib.run_driver(h, "c04_tv", out, {"shards": 16, "random": 1500 if quick else 40000})
     files = [os.path.join(out, "trace-%02d.ndjson" % i) for i in range(s["shards"])]
-    res = vlib.validate_traces("CodecTrace", "CodecTrace.cfg", files, timeout=3000)
+    res = vlib.validate_traces("CodecTrace", "CodecTrace.cfg", files, timeout=3000, heap="1g")
     _lap("call-level trace validation")
     cov["tv_runs"], cov["tv_events"] = s["runs"], s["events"]
     cov["tv_breakdown"] = {k[2:]: val for k, val in s.items() if k.startswith("n_")}
@@ -209,15 +209,15 @@ def run(tier, v):
         e["buf"] = e["buf"][:-1]
         return ev
     small = _truncate_runs(files[1], 600)
-    st = {"write_out_corrupted": _selftest("CodecTrace", "CodecTrace.cfg", small, corrupt_out),
-          "fill_dropped": _selftest("CodecTrace", "CodecTrace.cfg", small, drop_fill),
-          "ret_short": _selftest("CodecTrace", "CodecTrace.cfg", small, lose_leader)}
+    st = {"write_out_corrupted": _selftest("CodecTrace", "CodecTrace.cfg", small, corrupt_out, heap="1g"),
+          "fill_dropped": _selftest("CodecTrace", "CodecTrace.cfg", small, drop_fill, heap="1g"),
+          "ret_short": _selftest("CodecTrace", "CodecTrace.cfg", small, lose_leader, heap="1g")}
     _lap("call-level self-tests")
     # ---- 4. impl -> spec, wire level
     wout = os.path.join(vlib.scratch(), "c04wire")
     w = vlib.run_driver(h, "c04_wire", wout, {"shards": 16, "uploads": 72 if quick else 720}, timeout=1500)
     wfiles = _nonempty([os.path.join(wout, "wire-%02d.ndjson" % i) for i in range(w["shards"])])
-    wres = vlib.validate_traces("CodecObs", "CodecObs.cfg", wfiles, timeout=3000, heap="3g")
+    wres = vlib.validate_traces("CodecObs", "CodecObs.cfg", wfiles, timeout=3000, heap="1500m")
     _lap("wire-level trace validation")
     cov["wire_uploads"], cov["wire_events"] = w["runs"], w["events"]
     cov["wire_uploads_ok"] = w.get("uploads_ok", 0)
@@ -256,9 +256,9 @@ def run(tier, v):
         e["bytes"][0] ^= 1
         return ev
     wsample = next((f for f in wfiles if any(e.get("e") == "src" and e.get("comp") == "no" for e in vlib.read_ndjson(f))), wfiles[0])
-    st["wire_tilde_injected"] = _selftest("CodecObs", "CodecObs.cfg", wsample, tilde_on_wire, heap="3g")
-    st["wire_frame_dropped"] = _selftest("CodecObs", "CodecObs.cfg", wsample, drop_frame, heap="3g")
-    st["wire_saved_file_differs"] = _selftest("CodecObs", "CodecObs.cfg", wsample, wrong_file, heap="3g")
+    st["wire_tilde_injected"] = _selftest("CodecObs", "CodecObs.cfg", wsample, tilde_on_wire, heap="1500m")
+    st["wire_frame_dropped"] = _selftest("CodecObs", "CodecObs.cfg", wsample, drop_frame, heap="1500m")
+    st["wire_saved_file_differs"] = _selftest("CodecObs", "CodecObs.cfg", wsample, wrong_file, heap="1500m")
     _lap("wire-level self-tests")
     cov["selftest_rejected"] = st
     if any(x is False for x in st.values()) or (not v.violations and not v.known_hit and not all(st.values())):
@@ -306,12 +306,12 @@ def replay(path, v):
     if rp.get("kind") == "tv":
         s = vlib.run_driver(h, "c04_tv", out, {"shards": 1, "random": 40000, "only": rp["run"]})
         files = _nonempty([os.path.join(out, "trace-00.ndjson")])
-        res = vlib.validate_traces("CodecTrace", "CodecTrace.cfg", files, timeout=600)
+        res = vlib.validate_traces("CodecTrace", "CodecTrace.cfg", files, timeout=600, heap="1g")
         n = _judge(v, "tv", "Codec", files, res, cov)
     else:
         s = vlib.run_driver(h, "c04_wire", out, {"shards": 1, "uploads": rp["run"] + 1, "only": rp["run"]})
         files = _nonempty([os.path.join(out, "wire-00.ndjson")])
-        res = vlib.validate_traces("CodecObs", "CodecObs.cfg", files, timeout=600, heap="3g")
+        res = vlib.validate_traces("CodecObs", "CodecObs.cfg", files, timeout=600, heap="1500m")
         n = _judge(v, "wire", "CodecObs", files, res, cov)
     print("replayed run %s: %s" % (rp.get("run"), "rejected again" if n else "accepted"), flush=True)
     return cov
